@@ -22,7 +22,7 @@
 From Coq Require Import List ZArith NArith Bool.
 From Astisub Require Import Kit.Base Kit.Str Kit.Scan Model.Dur Model.Ssa.
 From Coq Require Import Permutation.
-From Astisub Require Import Proofs.EolProofs Proofs.SsaFields Proofs.SsaText Proofs.SsaRows Proofs.SsaDoc Proofs.SsaIgnore Proofs.SsaOrder Proofs.SsaRepr.
+From Astisub Require Import Proofs.EolProofs Proofs.SsaFields Proofs.SsaText Proofs.SsaRows Proofs.SsaDoc Proofs.SsaInfo Proofs.SsaIgnore Proofs.SsaOrder Proofs.SsaRepr Proofs.SsaRead.
 Import ListNotations.
 
 (* ---- field codecs ---- *)
@@ -133,6 +133,28 @@ Proof. exact doc_reprb_ok. Qed.
 Print Assumptions C04_repr_decidable.
 Example C04_example : doc_repr ex_doc.
 Proof. exact ex_doc_repr. Qed.
+
+(* ---- reading rendered documents ---- *)
+(* every spelling of the section names, every pair of Format lines (columns in any order, any subset, unknown names,
+   any spacing around the commas), every admissible encoding of every cell: the reader returns the script info, the
+   styles and, for every Dialogue row, the item its event denotes (text splitting: C04_text_lines, C04_runs; style
+   look-up: C04_star_style).  Blank / junk lines, unknown sections, other event kinds, line endings and the byte-order
+   mark compose with this statement through the theorems below. *)
+Theorem C04_read_rendered : forall hi b styles he fe erows scols ecols e,
+  section_hdr true hi SInfo -> info_ok b ->
+  match styles with
+  | Some (hs, fs, srows) => section_hdr false hs SStyles /\ format_value fs scols /\ scols <> [] /\
+                            Forall (fun p : list str * astyle => style_row scols (fst p) (snd p)) srows
+  | None => True
+  end ->
+  section_hdr false he SEvents -> format_value fe ecols -> ecols <> [] ->
+  Forall (fun p : (list str * str) * aevent => event_row ecols (fst (fst p)) (snd (fst p)) (snd p)) erows ->
+  let sts := match styles with Some (_, _, srows) => map snd srows | None => [] end in
+  read_ssa_lines (rendered_lines hi b styles he fe erows) e =
+  if e then Err EIO
+  else Ok (mkAdoc (Some b) (styles_map sts) (map (fun ev => event_item ev (styles_map sts)) (map snd erows))).
+Proof. exact read_rendered. Qed.
+Print Assumptions C04_read_rendered.
 
 (* ---- what the reader ignores ---- *)
 Theorem C04_ignores_unintelligible_lines : forall l1 j l2 e, l1 <> [] -> junk j ->
